@@ -682,12 +682,13 @@ OpName(q) ==
   CASE q.cmd \in {"start", "stop", "reload"} -> IF q.hasname THEN q.cmd ELSE "a_" \o q.cmd
     [] q.cmd = "restart" -> IF q.hasname THEN "restart" ELSE "a_restart"
     [] OTHER -> q.cmd
+GotoZ(s, f, v) == Goto(s, f, "z")
 P_req(s, f) ==
   LET fr == s.fr[f] q == s.creq cid == fr.nm
       ws == ByName(s, q.lname)
       i == IF ws = {} THEN 0 ELSE Min(ws) IN
   CASE fr.pc = "0" ->
-         IF q.hasname /\ ws = {} THEN Reply(Ret(s, f, 0), cid, q.mid, "error", 3)
+         IF q.hasname /\ ws = {} THEN Reply(Goto(s, f, "z"), cid, q.mid, "error", 3)
          ELSE IF q.cmd = "list" /\ q.hasname THEN Goto(SetL(s, f, PidSeq(s.ws[i])), f, "rl")
          ELSE IF q.cmd = "stats"
          THEN LET RECURSIVE Cat(_)
@@ -695,10 +696,10 @@ P_req(s, f) ==
                   all == [j \in 1..NW(s) |-> j]
               IN Goto(SetL(s, f, IF q.hasname THEN PidSeq(s.ws[i]) ELSE Cat(all)), f, "rs")
          ELSE IF q.cmd \in {"status", "numprocesses", "list", "numwatchers", "options"}
-         THEN Reply(Ret(s, f, 1), cid, q.mid, IF q.cmd = "status" /\ q.hasname THEN s.ws[i].st ELSE "ok", 0)
+         THEN Reply(Goto(s, f, "z"), cid, q.mid, IF q.cmd = "status" /\ q.hasname THEN s.ws[i].st ELSE "ok", 0)
          ELSE IF q.cmd \notin {"incr", "decr", "kill", "signal", "start", "stop", "restart", "reload", "set", "quit"}
-         THEN Reply(Ret(s, f, 0), cid, q.mid, "error", 2)          \* unknown command
-         ELSE IF q.cmd \in {"incr", "decr"} /\ s.ws[i].sing THEN Reply(Ret(s, f, 1), cid, q.mid, "ok", 0)
+         THEN Reply(Goto(s, f, "z"), cid, q.mid, "error", 2)          \* unknown command
+         ELSE IF q.cmd \in {"incr", "decr"} /\ s.ws[i].sing THEN Reply(Goto(s, f, "z"), cid, q.mid, "ok", 0)
          ELSE IF q.cmd = "kill" THEN Call(s, f, "k2", "cmd_kill", i, q.pid, q.signum, q.G)
          ELSE IF q.cmd = "signal" THEN Call(s, f, "g1", "cmd_signal", i, q.pid, q.signum,
                                             IF q.children THEN 1 ELSE IF q.recursive THEN 2 ELSE 0)
@@ -708,10 +709,10 @@ P_req(s, f) ==
          ELSE LET p == Head(fr.l) st == KStatus(s, p) s1 == SetL(s, f, Tail(fr.l)) IN
               Emit(IF st = "run" THEN SetM(s1, f, Append(fr.m, p)) ELSE s1, Line("status", "", p, 0, st, ""))
     [] fr.pc = "rl2" ->    \* ... and once more for the debug log line
-         IF fr.l = <<>> THEN Reply(Ret(s, f, 1), cid, q.mid, "ok", 0)
+         IF fr.l = <<>> THEN Reply(Goto(s, f, "z"), cid, q.mid, "ok", 0)
          ELSE Emit(SetL(s, f, Tail(fr.l)), Line("status", "", Head(fr.l), 0, KStatus(s, Head(fr.l)), ""))
     [] fr.pc = "rs" ->     \* stats: Process.info() lists the children of every worker that still exists
-         IF fr.l = <<>> THEN Reply(Ret(s, f, 1), cid, q.mid, "ok", 0)
+         IF fr.l = <<>> THEN Reply(Goto(s, f, "z"), cid, q.mid, "ok", 0)
          ELSE IF s.k[Head(fr.l)].st = "run"
          THEN Emit(SetL(s, f, Tail(fr.l)), Line("children", "", Head(fr.l), Cardinality(LiveChildren(s, Head(fr.l))), "ok", ""))
          ELSE Goto(SetL(s, f, Tail(fr.l)), f, "rs")
@@ -719,20 +720,20 @@ P_req(s, f) ==
          LET kid == LastKid(s, f) IN
          IF q.waiting
          THEN IF s.fr[kid].done
-              THEN Ret(Enq([s EXCEPT !.fr[f].kids = <<>>],
+              THEN GotoZ(Enq([s EXCEPT !.fr[f].kids = <<>>],
                            [kind |-> "reply", f |-> kid, cid |-> cid, mid |-> q.mid]), f, 1)
-              ELSE Ret([s EXCEPT !.fr[kid].cbs = Append(@, [kind |-> "reply", f |-> kid, cid |-> cid, mid |-> q.mid]),
+              ELSE GotoZ([s EXCEPT !.fr[kid].cbs = Append(@, [kind |-> "reply", f |-> kid, cid |-> cid, mid |-> q.mid]),
                                  !.fr[kid].par = 0, !.fr[f].kids = <<>>], f, 1)
-         ELSE Reply(Ret(IF s.fr[kid].done THEN DropKids(s, f)
+         ELSE Reply(GotoZ(IF s.fr[kid].done THEN DropKids(s, f)
                         ELSE [s EXCEPT !.fr[kid].par = 0, !.fr[f].kids = <<>>], f, 1), cid, q.mid, "ok", 0)
     [] fr.pc = "g1" -> LET r == KidR(s, f) IN
-                       IF r = 3 THEN Reply(Ret(DropKids(s, f), f, 0), cid, q.mid, "error", 5)
-                       ELSE Reply(Ret(DropKids(s, f), f, 1), cid, q.mid, "ok", 0)
+                       IF r = 3 THEN Reply(Goto(DropKids(s, f), f, "z"), cid, q.mid, "error", 5)
+                       ELSE Reply(Goto(DropKids(s, f), f, "z"), cid, q.mid, "ok", 0)
     [] fr.pc = "x" ->      \* exclusive commands: util.synchronized
-         IF s.restarting \/ s.slot # "" THEN Reply(Ret(s, f, 0), cid, q.mid, "error", 5)
+         IF s.restarting \/ s.slot # "" THEN Reply(Goto(s, f, "z"), cid, q.mid, "error", 5)
          ELSE IF q.cmd = "set"
          THEN \* Watcher.set_opt("numprocesses", v): synchronous, releases the slot when it returns
-              IF s.ws[i].sing /\ q.nb > 1 THEN Reply(Ret(s, f, 0), cid, q.mid, "error", 5)
+              IF s.ws[i].sing /\ q.nb > 1 THEN Reply(Goto(s, f, "z"), cid, q.mid, "error", 5)
               ELSE Emit(Goto([s EXCEPT !.slot = "watcher_set_opt", !.ws[i].np = IF q.nb < 0 THEN 0 ELSE q.nb],
                              f, "x2"), Line("ev", WN(s, i), 0, 0, "", "updated"))
          ELSE CallN([s EXCEPT !.slot = ExclSlot(q)], f, "x3", "op", i, 0,
@@ -744,14 +745,16 @@ P_req(s, f) ==
              s1 == SyncRelease(s, kid)
              det(ss) == [ss EXCEPT !.fr[kid].par = 0, !.fr[f].kids = <<>>] IN
          IF s.fr[kid].done /\ s.fr[kid].r = 3
-         THEN Reply(Ret(DropKids(s1, f), f, 0), cid, q.mid, "error", 5)       \* raised synchronously
+         THEN Reply(Goto(DropKids(s1, f), f, "z"), cid, q.mid, "error", 5)       \* raised synchronously
          ELSE IF q.waiting
          THEN IF s.fr[kid].done
-              THEN Ret(Enq([s1 EXCEPT !.fr[f].kids = <<>>],
+              THEN GotoZ(Enq([s1 EXCEPT !.fr[f].kids = <<>>],
                            [kind |-> "reply", f |-> kid, cid |-> cid, mid |-> q.mid]), f, 1)
-              ELSE Ret(det([s1 EXCEPT !.fr[kid].cbs = Append(@, [kind |-> "reply", f |-> kid, cid |-> cid,
+              ELSE GotoZ(det([s1 EXCEPT !.fr[kid].cbs = Append(@, [kind |-> "reply", f |-> kid, cid |-> cid,
                                                                    mid |-> q.mid])]), f, 1)
-         ELSE Reply(Ret(IF s.fr[kid].done THEN DropKids(s1, f) ELSE det(s1), f, 1), cid, q.mid, "ok", 0)
+         ELSE Reply(Goto(IF s.fr[kid].done THEN DropKids(s1, f) ELSE det(s1), f, "z"), cid, q.mid, "ok", 0)
+    [] fr.pc = "z" ->      \* handle_message returns (the recorder marks the end of the synchronous handling)
+         IF cid = "" THEN Ret(s, f, 1) ELSE Emit(Ret(s, f, 1), Line("reqend", "", 0, 0, "", cid))
 
 ---------------------------------------------------------------------------
 \* ====================== the step relation =====================
